@@ -23,6 +23,9 @@ log = logging.getLogger('Aegean')
 # ERR_MASK is used to indicate that the err_x value can't be determined
 ERR_MASK = -1.0
 
+# CC2FHWM converts a gaussian sigma into a FWHM (same as in source_finder)
+CC2FHWM = 2 * math.sqrt(2 * math.log(2))
+
 
 # Modelling and fitting functions
 def elliptical_gaussian(x, y, amp, xo, yo, sx, sy, theta):
@@ -942,23 +945,29 @@ def errors(source, model, wcshelper):
 
     if model[prefix + 'sx'].vary and model[prefix + 'sy'].vary \
             and all(np.isfinite([err_sx, err_sy])):
-        # major axis error
+        # major axis error: the end of the FWHM major axis,
+        # and the same end when sx is one standard error larger
         ref = wcshelper.pix2sky(
-            [xo + sx * np.cos(np.radians(theta)),
-             yo + sy * np.sin(np.radians(theta))])
+            [xo + sx * CC2FHWM * np.cos(np.radians(theta)),
+             yo + sx * CC2FHWM * np.sin(np.radians(theta))])
         offset = wcshelper.pix2sky(
-            [xo + (sx + err_sx) * np.cos(np.radians(theta)),
-             yo + sy * np.sin(np.radians(theta))])
+            [xo + (sx + err_sx) * CC2FHWM * np.cos(np.radians(theta)),
+             yo + (sx + err_sx) * CC2FHWM * np.sin(np.radians(theta))])
         source.err_a = gcd(ref[0], ref[1], offset[0], offset[1]) * 3600
 
         # minor axis error
         ref = wcshelper.pix2sky(
-            [xo + sx * np.cos(np.radians(theta + 90)),
-             yo + sy * np.sin(np.radians(theta + 90))])
+            [xo + sy * CC2FHWM * np.cos(np.radians(theta + 90)),
+             yo + sy * CC2FHWM * np.sin(np.radians(theta + 90))])
         offset = wcshelper.pix2sky(
-            [xo + sx * np.cos(np.radians(theta + 90)),
-             yo + (sy + err_sy) * np.sin(np.radians(theta + 90))])
+            [xo + (sy + err_sy) * CC2FHWM * np.cos(np.radians(theta + 90)),
+             yo + (sy + err_sy) * CC2FHWM * np.sin(np.radians(theta + 90))])
         source.err_b = gcd(ref[0], ref[1], offset[0], offset[1]) * 3600
+
+        # fix_shape has already made a the larger axis: when sx < sy
+        # the major axis, and therefore its error, is that of sy
+        if sx < sy:
+            source.err_a, source.err_b = source.err_b, source.err_a
     else:
         source.err_a = source.err_b = ERR_MASK
 
